@@ -1,2 +1,146 @@
+//! C11 — domain separation between ciphersuites, interfaces and sizes: every artefact kind x producing
+//! (suite, interface) x every foreign (suite', interface') must be refused; generator prefix law for every k <= N and
+//! set algebra (duplicate-free, identity-free, P1-free, g1-free, pairwise disjoint across suites and api_ids).
+#![allow(non_snake_case)]
+use crate::c10::api_ids;
 use crate::common::*;
-pub fn run(_env: &Env) {}
+use mccore::{par_for, O};
+use refbbs::Suite;
+use serde_json::json;
+use std::collections::HashMap;
+
+pub fn run(env: &Env) {
+    let seed = env.ctx.seed;
+    let nmax = if env.thorough() { 1100 } else { 300 };
+    env.ctx.set_rule("(a) artefact replay: kinds {signature, proof, commitment, blind signature without/with commitment, blind proof} x producing suite x shapes (L, M) in [0..=2]^2 x header {none,16B}: the native verifier accepts (control) and EVERY foreign (suite', interface') verifier / signer refuses, including re-interpretations (blind artefact with concatenated message lists through the plain interface, plain artefact through the blind interface with L in {total, total-1, 0}); (b) generators: for 7 api_ids x 2 suites, create(N)[..k] = create(k) for EVERY k <= N = 300 (thorough 1100); each N-set duplicate-free, identity-free, P1-free, g1-free; sets of different (suite, api_id) pairwise disjoint; None == empty api_id. State = (artefact, foreign verifier) or (api_id, k); non-trivial = a real verifier/generator call was judged.");
+    #[derive(Clone)]
+    enum Job { Replay(Suite, usize, usize, usize), Prefix(Suite, usize), Sets }
+    let mut jobs: Vec<(String, Job)> = Vec::new();
+    for s in suites() {
+        for l in 0..=2usize { for m in 0..=2usize { for h in 0..2usize { jobs.push((format!("{}/replay/L{}/M{}/h{}", s.name(), l, m, h), Job::Replay(s, l, m, h))); } } }
+        for a in 0..7 { jobs.push((format!("{}/prefix/api{}", s.name(), a), Job::Prefix(s, a))); }
+    }
+    jobs.push(("generator-sets".into(), Job::Sets));
+    par_for(&jobs, |_, (id, job)| {
+        if !env.want(id) || env.ctx.out_of_time() { return; }
+        match job.clone() {
+            Job::Replay(s, l, m, hi) => {
+                let o = s.other();
+                let (zk, zo) = (z(s), z(o));
+                let k = key(s, "k0");
+                // the same secret scalar used as a key under the other suite is the strongest foreign verifier
+                let header: Option<Vec<u8>> = if hi == 0 { None } else { Some(mccore::fill(seed, "c11h", 16)) };
+                let (h, ph) = (oh(&header), oh(&header));
+                let msgs = distinct_msgs(seed, "c11m", l);
+                let cms = distinct_msgs(seed, "c11c", m);
+                let all: Vec<Vec<u8>> = msgs.iter().chain(cms.iter()).cloned().collect();
+                let det = json!({"suite": s.name(), "L": l, "M": m, "header": if hi == 0 { "none" } else { "16B" }});
+                let check = |name: &str, cls: &str, native: bool, got: O<()>| {
+                    if !env.ctx.state(&[id.as_bytes(), name.as_bytes()]) { return; }
+                    expect(env, id, name, &got, native, &format!("replay:{}", cls), json!({"base": det, "presentation": name}));
+                    env.ctx.class(&format!("{}:{}", cls, if native { "native-accept" } else { "foreign-reject" }));
+                    env.ctx.trace();
+                };
+                // --- plain signature (only distinct when M = 0 to avoid repeating the same case)
+                if m == 0 {
+                    if let O::Ok(sig) = zk.sign(&k.sk, &k.pk, h, Some(&msgs)) {
+                        env.ctx.step();
+                        check("plain signature -> native verify", "signature", true, zk.verify(&k.pk, &sig, h, Some(&msgs)));
+                        check("plain signature -> other suite verify", "signature", false, zo.verify(&k.pk, &sig, h, Some(&msgs)));
+                        for (zn, zz) in [("same suite", zk), ("other suite", zo)] {
+                            check(&format!("plain signature -> {} verify_blind_sign(no committed, None)", zn), "signature", false, zz.verify_blind_sign(&k.pk, &sig, h, Some(&msgs), None, None));
+                            check(&format!("plain signature -> {} verify_blind_sign(no committed, blind 0)", zn), "signature", false, zz.verify_blind_sign(&k.pk, &sig, h, Some(&msgs), Some(&[]), Some(&[0u8; 32])));
+                            if l > 0 { check(&format!("plain signature -> {} verify_blind_sign(last message as committed)", zn), "signature", false, zz.verify_blind_sign(&k.pk, &sig, h, Some(&msgs[..l - 1]), Some(&msgs[l - 1..]), None)); }
+                        }
+                        for d in mccore::subsets(l) {
+                            let dm: Vec<Vec<u8>> = d.iter().map(|&i| msgs[i].clone()).collect();
+                            if let O::Ok(p) = zk.proof_gen(&k.pk, &sig, h, ph, Some(&msgs), Some(&d)) {
+                                env.ctx.step();
+                                check(&format!("plain proof D={:?} -> native proof_verify", d), "proof", true, zk.proof_verify(&k.pk, &p, h, ph, Some(&dm), Some(&d)));
+                                check(&format!("plain proof D={:?} -> other suite proof_verify", d), "proof", false, zo.proof_verify(&k.pk, &p, h, ph, Some(&dm), Some(&d)));
+                                for (zn, zz) in [("same suite", zk), ("other suite", zo)] { for lv in [l, l.saturating_sub(1), 0] {
+                                    check(&format!("plain proof D={:?} -> {} blind_proof_verify(L={})", d, zn, lv), "proof", false, zz.blind_proof_verify(&k.pk, &p, h, ph, Some(lv), Some(&dm), None, Some(&d), None));
+                                } }
+                            }
+                        }
+                    }
+                }
+                // --- commitment, blind signature, blind proof
+                let with_commitment: Vec<bool> = if m == 0 { vec![false, true] } else { vec![true] };
+                for wc in with_commitment {
+                    let (cwp, blind): (Option<Vec<u8>>, Option<[u8; 32]>) = if wc { match zk.commit(Some(&cms)) { O::Ok((c, b)) => (Some(c), Some(b)), _ => continue } } else { (None, None) };
+                    env.ctx.step();
+                    if let Some(c) = &cwp {
+                        check(&format!("commitment(M={}) -> native blind_sign", m), "commitment", true, zk.blind_sign(&k.sk, &k.pk, Some(c), h, Some(&msgs)).map(|_| ()));
+                        check(&format!("commitment(M={}) -> other suite blind_sign", m), "commitment", false, zo.blind_sign(&k.sk, &k.pk, Some(c), h, Some(&msgs)).map(|_| ()));
+                    }
+                    let bsig = match zk.blind_sign(&k.sk, &k.pk, cwp.as_deref(), h, Some(&msgs)) { O::Ok(x) => x, _ => continue };
+                    let cm_arg: Option<&[Vec<u8>]> = if wc { Some(&cms) } else { None };
+                    let tag = if wc { "blind signature (commitment)" } else { "blind signature (no commitment)" };
+                    check(&format!("{} -> native verify_blind_sign", tag), "blind-signature", true, zk.verify_blind_sign(&k.pk, &bsig, h, Some(&msgs), cm_arg, blind.as_ref()));
+                    check(&format!("{} -> other suite verify_blind_sign", tag), "blind-signature", false, zo.verify_blind_sign(&k.pk, &bsig, h, Some(&msgs), cm_arg, blind.as_ref()));
+                    for (zn, zz) in [("same suite", zk), ("other suite", zo)] {
+                        check(&format!("{} -> {} plain verify(signer messages)", tag, zn), "blind-signature", false, zz.verify(&k.pk, &bsig, h, Some(&msgs)));
+                        check(&format!("{} -> {} plain verify(signer + committed messages)", tag, zn), "blind-signature", false, zz.verify(&k.pk, &bsig, h, Some(&all)));
+                    }
+                    for d in mccore::subsets(l) { for dc in mccore::subsets(if wc { m } else { 0 }) {
+                        let dm: Vec<Vec<u8>> = d.iter().map(|&i| msgs[i].clone()).collect();
+                        let dcm: Vec<Vec<u8>> = dc.iter().map(|&i| cms[i].clone()).collect();
+                        let p = match zk.blind_proof_gen(&k.pk, &bsig, h, ph, Some(&msgs), cm_arg, Some(&d), if wc { Some(&dc) } else { None }, blind.as_ref()) { O::Ok(p) => p, _ => continue };
+                        env.ctx.step();
+                        let tagp = format!("blind proof ({}) D={:?} Dc={:?}", if wc { "commitment" } else { "no commitment" }, d, dc);
+                        check(&format!("{} -> native blind_proof_verify", tagp), "blind-proof", true, zk.blind_proof_verify(&k.pk, &p, h, ph, Some(l), Some(&dm), Some(&dcm), Some(&d), Some(&dc)));
+                        check(&format!("{} -> other suite blind_proof_verify", tagp), "blind-proof", false, zo.blind_proof_verify(&k.pk, &p, h, ph, Some(l), Some(&dm), Some(&dcm), Some(&d), Some(&dc)));
+                        let cat: Vec<Vec<u8>> = dm.iter().chain(dcm.iter()).cloned().collect();
+                        let ci: Vec<usize> = d.iter().copied().chain(dc.iter().map(|j| j + l + 1)).collect();
+                        for (zn, zz) in [("same suite", zk), ("other suite", zo)] { check(&format!("{} -> {} plain proof_verify(concatenated)", tagp, zn), "blind-proof", false, zz.proof_verify(&k.pk, &p, h, ph, Some(&cat), Some(&ci))); }
+                    } }
+                }
+                if l == 1 && m == 1 && hi == 1 { env.ctx.sample(json!({"root": id, "base": det})); }
+            }
+            Job::Prefix(s, a) => {
+                let (an, api) = api_ids(s, seed)[a].clone();
+                let zk = z(s);
+                let full = match zk.generators(nmax, api.as_deref()) { O::Ok(g) => g, o => { env.ctx.violation("C11:generators:create-failed", &o.describe(), env.case(id, json!({"api_id": an}))); return; } };
+                env.ctx.step();
+                for kk in 0..=nmax {
+                    env.ctx.state(&[id.as_bytes(), &(kk as u32).to_be_bytes()]);
+                    let g = zk.generators(kk, api.as_deref());
+                    env.ctx.step();
+                    match g {
+                        O::Ok(g) if g[..] == full[..kk] => env.ctx.class("prefix-law:holds"),
+                        O::Ok(g) => { let first = g.iter().zip(full.iter()).position(|(x, y)| x != y).unwrap_or(g.len().min(kk)); env.ctx.violation("C11:generators:prefix-law", &format!("create({}, {})[{}] differs from create({}, {})[{}]", kk, an, first, nmax, an, first), env.case(id, json!({"suite": s.name(), "api_id": an, "k": kk, "n": nmax}))); }
+                        o => env.ctx.violation("C11:generators:create-failed", &o.describe(), env.case(id, json!({"api_id": an, "k": kk}))),
+                    }
+                    env.ctx.trace();
+                }
+            }
+            Job::Sets => {
+                let mut owner: HashMap<[u8; 48], String> = HashMap::new();
+                let g1 = refbbs::g1_bytes(&refbbs::g1_generator());
+                let mut identity = [0u8; 48]; identity[0] = 0xc0;
+                let mut lists: Vec<(String, Vec<u8>, Vec<[u8; 48]>)> = Vec::new();
+                for s in suites() { for (an, api) in api_ids(s, seed) { if let O::Ok(g) = z(s).generators(nmax, api.as_deref()) { env.ctx.step(); lists.push((format!("{}/{}", s.name(), an), [s.name().as_bytes(), b"/", api.as_deref().unwrap_or(b"")].concat(), g)); } } }
+                for (name, real_id, g) in &lists {
+                    env.ctx.state(&[b"sets", name.as_bytes()]);
+                    let p1 = if name.starts_with("sha256") { z(Suite::Sha256).p1() } else { z(Suite::Shake256).p1() };
+                    for (i, p) in g.iter().enumerate() {
+                        if *p == identity { env.ctx.violation("C11:generators:identity", &format!("{}[{}] is the identity", name, i), env.case(id, json!({"list": name, "i": i}))); }
+                        if *p == p1 { env.ctx.violation("C11:generators:P1", &format!("{}[{}] equals P1", name, i), env.case(id, json!({"list": name, "i": i}))); }
+                        if *p == g1 { env.ctx.violation("C11:generators:g1", &format!("{}[{}] equals the fixed base point", name, i), env.case(id, json!({"list": name, "i": i}))); }
+                        let me = format!("{}#{}", hex::encode(real_id), i);
+                        if let Some(prev) = owner.get(p) {
+                            // the same (suite, api_id) under two names (None == empty) must coincide position by position; anything else is a collision
+                            let same_list = prev.split('#').next() == me.split('#').next();
+                            if !(same_list && *prev == me) { env.ctx.violation(if same_list { "C11:generators:duplicate" } else { "C11:generators:shared-between-domains" }, &format!("{}[{}] also occurs as {}", name, i, prev), env.case(id, json!({"list": name, "i": i}))); }
+                        } else { owner.insert(*p, me); }
+                    }
+                    env.ctx.class("set-algebra"); env.ctx.trace();
+                }
+                // None == empty
+                for s in suites() { let a = z(s).generators(16, None).ok(); let b = z(s).generators(16, Some(b"")).ok(); if a != b { env.ctx.violation("C11:generators:none-vs-empty", "create(n, None) != create(n, Some(empty))", env.case(id, json!({"suite": s.name()}))); } }
+                env.ctx.extra("distinct_generator_points", json!(owner.len()));
+            }
+        }
+    });
+}
